@@ -268,13 +268,64 @@ pub fn run(ctx: &Ctx) -> i32 {
     // ---- mul_by_a
     let na = ctx.n(1_000_000, 30_000_000);
     let coeff_a = <Parameters as SWCurveConfig>::COEFF_A;
+    let mut nbad = 0u64;
     let mut edge: Vec<Fq> = vec![Fq::zero(), Fq::one(), -Fq::one(), Fq::from(2u64).pow([64]), Fq::from(2u64).pow([128]), Fq::from(2u64).pow([255]), -Fq::from(2u64), (-Fq::one()) * Fq::from(2u64).inverse().unwrap()];
     for i in 0..64u64 {
         edge.push(Fq::from(2u64).pow([i * 4]) - Fq::one());
     }
+    // boundary values of the *internal representation*: every integer below q is the Montgomery form
+    // of some field element, so elements are also built from raw limb patterns around 2^64k, 2^255, q,
+    // q/2, q/3, 2q/3, (2^255)/3 ... (where carries and conditional subtractions change behaviour)
+    {
+        let qb = modulus::<Fq>();
+        let one = BigUint::from(1u32);
+        let mut bases: Vec<BigUint> = vec![BigUint::from(0u32), qb.clone(), &qb / 2u32, &qb / 3u32, (&qb * 2u32) / 3u32, &qb / 6u32, (&qb * 5u32) / 6u32];
+        for k in [63u32, 64, 65, 127, 128, 129, 191, 192, 193, 254, 255] {
+            bases.push(&one << k);
+        }
+        for d in [2u32, 3, 6] {
+            bases.push((&one << 255) / d);
+            bases.push(((&one << 255) + &qb) / d);
+            bases.push(((&one << 255) + &qb * 2u32) / d);
+            bases.push(((&one << 256) + &qb) / d);
+        }
+        let mut raws: Vec<BigUint> = vec![];
+        for b in &bases {
+            for off in 0..6u32 {
+                raws.push(b + off);
+                if *b >= BigUint::from(off) {
+                    raws.push(b - off);
+                }
+            }
+        }
+        // a dense sweep just below q and just above 2^255
+        for off in 1..400u32 {
+            if qb > BigUint::from(off) {
+                raws.push(&qb - off);
+            }
+            raws.push((&one << 255) + off);
+        }
+        let mut n_rep = 0u64;
+        for raw in raws {
+            if raw >= qb {
+                continue;
+            }
+            let mut limbs = [0u64; 4];
+            for (i, d) in raw.to_u64_digits().iter().enumerate().take(4) {
+                limbs[i] = *d;
+            }
+            let x = Fq::new_unchecked(ark_ff::BigInt::<4>(limbs));
+            n_rep += 1;
+            if <Parameters as SWCurveConfig>::mul_by_a(x) != coeff_a * x {
+                nbad += 1;
+            }
+        }
+        ev += n_rep;
+        agg.counters.insert("mul_by_a on boundary internal representations".into(), n_rep);
+        agg.sigs.insert("mul_by_a-representation-boundaries".into());
+    }
     let mut r2 = R::new(ctx.seed ^ 0x1414);
     let _ = r2.u64();
-    let mut nbad = 0u64;
     for x in &edge {
         if <Parameters as SWCurveConfig>::mul_by_a(*x) != coeff_a * x {
             nbad += 1;
